@@ -6,7 +6,6 @@ Created on May 23, 2021
 from vsc.model.constraint_soft_model import ConstraintSoftModel
 from vsc.model.field_composite_model import FieldCompositeModel
 from vsc.model.model_visitor import ModelVisitor
-from vsc.visitors.expr2field_visitor import Expr2FieldVisitor
 
 
 class ClearSoftPriorityVisitor(ModelVisitor):
@@ -25,8 +24,7 @@ class ClearSoftPriorityVisitor(ModelVisitor):
     def visit_expr_indexed_dynref(self, e):
         # As for a direct reference: soft constraints inside the 
         # referenced dynamic-constraint block take part in the call
-        fm = Expr2FieldVisitor().field(e.root, True)
-        fm.constraint_dynamic_model_l[e.idx].accept(self)
+        e.get_constraint().accept(self)
 
     def visit_composite_field(self, f: FieldCompositeModel):
         if f not in self.visited:
